@@ -28,8 +28,8 @@ CHECKS = {
    text="Per role 1-3 application sends (QoS 1 auto / caller-chosen id, QoS 2 with held receipt, client subscribe / unsubscribe) started in every order, interleaved with every peer sequence of up to 2 (quick) / 3 (thorough) acknowledgements over every ack type x id {1,2,5,9}; reference = FIFO of sends awaiting their first ack + set of released QoS 2 ids: a matching ack completes exactly that send with its contents, anything else completes nothing and ends the connection with one protocol-error Stop, never a panic; converse family (correct peer, locally failing sends) and a 66k / 140k-send packet-id wrap-around history per role.",
    note=A_NOTE + " Hostile acks are written at quiescent points; PUBCOMP before the endpoint's PUBREL is outside the statement.", design="4/C06"),
  "C07": dict(engine="simnet", technique=A_TECH + " (fault enumeration: the termination cause is an explorer event, injected at every decision point)",
-   text="Per role four base scenarios (gated publish handlers in flight; a streamed inbound payload half received with its reader waiting; outbound sends awaiting acks and parked on the send window; raw bytes arriving byte by byte) x ten termination causes (peer close, I/O error, undecodable bytes, protocol violation, publish-handler error, protocol-service error, control-service error, local close, local force-close, sink dropped) injected at every step index (every quiescent and, with one deviation, every runnable point) and, for peer close, after every byte of the inbound stream; oracle: exactly one Stop of the right class, every pending send/readiness future resolved with an error, waiting payload readers observe an error, handlers cancelled only after the Stop was handled, connection task completes, no panic, nothing left waiting.",
-   note=A_NOTE + " Keep-alive expiry as a cause is exercised under C20 (virtual clock).", design="4/C07"),
+   text="Per role four base schedules (two gated publish handlers + gated SUBSCRIBE in flight; a streamed inbound PUBLISH half received with the handler blocked in read(); one send awaiting its ack + one parked on the send window + one ready() future; the inbound stream delivered one byte per write) x ten termination causes (peer close, read error, write error, undecodable bytes, protocol-violating packet, publish-handler error, protocol-handler error, keep-alive expiry on the virtual clock, sink.close(), sink.force_close()) injected before/after every step of the base schedule at quiescence and, with one (quick) / two (thorough) deviations, between any two task polls, for peer close / read error / force-close at every byte offset; oracle: exactly one Stop of the class the statement assigns to the cause, every send/readiness future resolved with an error, blocked payload reader saw an error or was cancelled, handlers cancelled only after the Stop was handled, connection task completes, no panic, nothing left executing after 60 s of virtual time.",
+   note=A_NOTE, design="4/C07"),
  "C08": dict(engine="simnet", technique=A_TECH,
    text="Per role 2-3 application operations over {QoS 0/1/2 sends, streamed sends of 6 bytes (exact in one chunk, in two, second chunk one byte too long, half then dropped), subscribe/unsubscribe, sends that fail locally: 65536-byte topic, over the peer's maximum packet size, packet id in use, over-long filter}; every chunk is an explorer event, so other sends, peer acknowledgements, an inbound PINGREQ / QoS 1 PUBLISH (dispatcher response) or an application close() interleave at every position (1 deviation quick, 2 thorough); the full byte stream captured on the peer side is parsed by the independent decoder: whole packets only (truncated tail only as the streamed PUBLISH of an ended connection), Ok <-> exactly one packet, local Err <-> zero bytes, streamed payload = accepted chunks with the declared size.",
    note=A_NOTE, design="4/C08"),
